@@ -37,6 +37,7 @@ type Req struct {
 	AbortAfter int
 	LocalIP    string // source address to dial from (e.g. 127.0.0.2)
 	OnChunk    func(n int, total int)
+	OnData     func(sofar []byte) // called after every read with everything received so far (do not retain)
 }
 
 func (q *Req) bytes(host string) []byte {
@@ -123,6 +124,9 @@ func Do(addr string, q *Req) *Resp {
 			body.Write(buf[:n])
 			if q.OnChunk != nil {
 				q.OnChunk(n, body.Len())
+			}
+			if q.OnData != nil {
+				q.OnData(body.Bytes())
 			}
 			if q.AbortAfter > 0 && body.Len() >= q.AbortAfter {
 				res.Err = "aborted by client"
